@@ -381,12 +381,40 @@ def r165(P, rep):
                 outs.append((res, obj.v, exp.v))
             ok = outs == [(1, 42, 5), (0, 5, 5)]
             rep.ob('R16.5', 'stdatomic.h:%s:maps-to-__builtin_compare_and_swap' % mname, ok, '%s: (result, object, expected) is %r for an equal and an unequal expected value; prescribed [(1, 42, 5), (0, 5, 5)]' % (mname, outs), where=where)
+            # under interference: success = exactly one indivisible update from the expected value to the new one; failure = no update, and the
+            # value handed back through `expected` is one the object held at an access of this operation and DIFFERS from the expected value
+            bad = None
+            for init, expv in ((5, 5), (5, 6)):
+                for inj in ({}, {0: 6}, {0: 5}, {1: 6}, {1: 5}, {1: 9}, {0: 9, 1: 6}, {0: 6, 1: 5}, {0: 9, 1: 5, 2: 6}, {2: 6}, {2: 5}):
+                    obj = Shared(init, inj)
+                    seen = []
+                    tick0 = obj._tick
+
+                    def tick(obj=obj, seen=seen, tick0=tick0):
+                        tick0(); seen.append(obj.v)
+                    obj._tick = tick
+                    exp = Cell(expv, 'expected')
+                    e = Parser(expand(tokenize('%s(P, E, N)' % mname), macros) + [('p', ';')]).expr()
+                    res = Eval({}, builtins={'__builtin_compare_and_swap': lambda p_, e_, new: p_.cas(e_, new)}).ev(e, {'P': Cell(obj, 'P'), 'E': Cell(exp, 'E'), 'N': 42})
+                    sched = 'object %d, expected %d, other threads store %r before this operation\'s accesses' % (init, expv, inj)
+                    if res:
+                        if [(u[0], u[1]) for u in obj.updates] != [(expv, 42)] or obj.updates[0][2] != 'cas' or exp.v != expv:
+                            bad = bad or ('success-without-one-indivisible-update', 'reports success with updates %r and expected = %d (%s)' % (obj.updates, exp.v, sched))
+                    else:
+                        if obj.updates:
+                            bad = bad or ('failure-with-update', 'reports failure but updated the object: %r (%s)' % (obj.updates, sched))
+                        elif exp.v == expv:
+                            bad = bad or ('fails-with-expected-unchanged', 'reports failure and leaves %d in the expected-value object, the very value it was asked to compare with: a failure must hand back a value of the object that differs (%s)' % (exp.v, sched))
+                        elif exp.v not in seen:
+                            bad = bad or ('failure-stores-unobserved-value', 'reports failure and stores %d into the expected-value object, a value the object did not hold at any of its accesses %r (%s)' % (exp.v, seen, sched))
+            key = 'stdatomic.h:%s:linearizable-under-interference' % mname
+            rep.ob('R16.5', key if not bad else key + ':' + bad[0], bad is None, '%s %s' % (mname, bad[1] if bad else ''), where=where)
         except NotInSubset as e:
             rep.undecided('R16.5', 'stdatomic.h:%s' % mname, 'macro outside the evaluated C subset: %s' % e, where=where)
 
 
 def r166(P, rep):
-    rep.rule('R16.6', '_Atomic is recorded on a private copy of the type, never on the shared type objects; CAS/exchange operands are converted to the type of the atomic object', floor=2)
+    rep.rule('R16.6', '_Atomic is recorded on a private copy of the type, never on the shared type objects; CAS/exchange operands are converted to the type of the atomic object', floor=25)
     pu = P.unit('parse.c')
     fn = pu.fn('declspec')
     if fn is None:
@@ -443,6 +471,7 @@ def run(P, rep, tier):
     r161(P, rep)
     r165(P, rep)
     r166(P, rep)
+    r166_forms(P, rep)
     from ..lib_types import r_atomic_builtin_operands
     rep.rule('R16.7', 'add_type converts the value operand of the exchange / compare-and-swap builtins to the type of the atomic object for every arithmetic operand type and gives the exchange the object\'s type: the value the indivisible instruction stores is the converted operand (a floating operand left unconverted is never moved into the register the instruction uses)', floor=200)
     r_atomic_builtin_operands(P, rep, 'R16.7')
